@@ -266,6 +266,7 @@ class Intervals:
         self.bb = bb
         self.bounds = {}  # shape -> (lo, hi) from dominating comparisons with constants
         self.rel = set()  # (op, lshape, rshape) relational facts
+        self.bools = set()  # (True/False, shape) boolean call facts
         for c in q.path_conditions(body, bb):
             if stale(body, c, bb):
                 continue
@@ -279,6 +280,8 @@ class Intervals:
             f.l = norm_len(f.l)
         if isinstance(f.r, str):
             f.r = norm_len(f.r)
+        if f.op in ("true", "false"):
+            self.bools.add((f.op == "true", f.l))
         if f.op in ("true", "false") and f.l.endswith(")") and "::is_empty(" in f.l:
             m = _re.match(r"^[\w\[\]]+::is_empty\((.*)\)$", f.l)
             if m:
@@ -838,6 +841,10 @@ def _index_call(site):
             ssh = USH(s)
             if ssh == lenkey:
                 return ("range-from-len", "x[x.len()..] is the empty tail")
+            if ssh.startswith("len(") and ssh.endswith(")"):
+                pfx = ssh[4:-1]
+                if (True, "str::starts_with(%s,%s)" % (base_sh, pfx)) in iv.bools:
+                    return ("str-prefix", "s[p.len()..] dominated by s.starts_with(p): a char boundary within the string")
             if not idx_ty.endswith("<usize>"):
                 return None
     return None
